@@ -32,6 +32,11 @@ FIXTURE = [
     "insert into w values " + ",".join(f"({a},{b})" for a, b in U_ROWS),
     "create table m2 (id int, p0 number(10,0), d number(10,2), s varchar)",
     "insert into m2 values " + ",".join(f"({i},{i * 100},{i}.75,'v{i}')" for i in range(1, N_ROWS + 1)),
+    # NULLs scattered differently over columns of different kinds (a NULL must not shorten or shift any column)
+    "create table m3 (id int, p0n number(10,0), dn number(10,2), sn varchar, alln number(8,0))",
+    "insert into m3 values " + ",".join(
+        f"({i},{'NULL' if i in (2, 4) else i * 100},{'NULL' if i in (1, 2) else str(i) + '.25'},{'NULL' if i % 2 else repr('n' + str(i))},NULL)" for i in range(1, N_ROWS + 1)
+    ),
     "create table m (i int, s varchar, d number(10,2), dt date, z varchar, f float, bo boolean)",
     "insert into m values "
     + ",".join(f"({i},'{s}',{d},'{dt.isoformat()}',NULL,{f},{str(bo).lower()})" for i, s, d, dt, z, f, bo in MIXED),
@@ -68,6 +73,11 @@ COLSETS = {
         ["X", "X", "P0"],
         lambda i: (decimal.Decimal(f"{i}.75"), i * 100, i * 100),
     ),
+    "nulls": (
+        "select id, p0n, dn, sn, alln from m3 where id <= {n} order by id",
+        ["ID", "P0N", "DN", "SN", "ALLN"],
+        lambda i: (i, None if i in (2, 4) else i * 100, None if i in (1, 2) else decimal.Decimal(f"{i}.25"), None if i % 2 else f"n{i}", None),
+    ),
     "desc": ("select a, b from t where a <= {n} order by a desc", ["A", "B"], None),  # reverse order
     # a statement answered by the nop_regexes option (the instance is created with nop_regexes=[NOP_REGEX]): also an
     # execute, so it must replace the previous result set completely
@@ -89,7 +99,7 @@ def shapes(tier):
     return [(cs, n) for cs in COLSETS if cs != "nop" for n in ns] + [("nop", 1)]
 
 
-REEXEC_TARGETS = [("aa", 2), ("ab", 0), ("mixed", 3), ("nop", 1)]
+REEXEC_TARGETS = [("aa", 2), ("ab", 0), ("mixed", 3), ("nop", 1), ("nulls", 3)]
 
 
 def ops_for(state, tier):
